@@ -986,8 +986,23 @@ func (c *c06) build0(n *fx) fp.Future[int] {
 		for i := range idx {
 			idx[i] = i
 		}
-		fn := func(i int) fp.Future[int] { called(); return bld(n.kids[i]) }
+		fn := func(i int) fp.Future[int] {
+			called()
+			if i < 0 || i >= len(n.kids) {
+				c.r.Violate("input-read-after-return", "node %d: the traverse function was handed %d, which the caller wrote into its own slice AFTER the Traverse call had returned (the slice held 0..%d then)", n.id, i, len(n.kids)-1)
+				return future.Successful(0)
+			}
+			return bld(n.kids[i])
+		}
 		hs := func(s fp.Seq[int]) int { return hashSeq(s) }
+		// the caller's slice is its own again once the call has returned: it is recycled (overwritten) right away, while
+		// the element futures may still be pending
+		reuse := func() {
+			for i := range idx {
+				idx[i] = -7
+			}
+			c.r.Fault("input-slice-recycled-after-the-call")
+		}
 		switch n.k {
 		case 0:
 			fs := make([]fp.Future[int], len(n.kids))
@@ -1004,10 +1019,13 @@ func (c *c06) build0(n *fx) fp.Future[int] {
 		case 2:
 			return future.Map(future.Traverse(iterator.FromSlice(idx), fn, ctx...), func(it fp.Iterator[int]) int { return hashSeq(it.ToSeq()) }, ctx...)
 		case 3:
+			defer reuse()
 			return future.Map(future.TraverseSeq(fp.Seq[int](idx), fn, ctx...), hs, ctx...)
 		case 4:
+			defer reuse()
 			return future.Map(future.TraverseSlice(idx, fn, ctx...), func(s []int) int { return hashSeq(s) }, ctx...)
 		case 5:
+			defer reuse()
 			return future.Map(future.TraverseSeqFunc(fn, ctx...)(fp.Seq[int](idx)), hs, ctx...)
 		case 6:
 			return future.Map(future.FlatMapTraverseSeq(future.Successful(fp.Seq[int](idx)), fn, ctx...), hs, ctx...)
@@ -1021,6 +1039,7 @@ func (c *c06) build0(n *fx) fp.Future[int] {
 		case 11:
 			return future.Map(future.TraverseFunc(fn, ctx...)(iterator.FromSlice(idx)), func(it fp.Iterator[int]) int { return hashSeq(it.ToSeq()) }, ctx...)
 		case 12:
+			defer reuse()
 			return future.Map(future.TraverseSliceFunc(fn, ctx...)(idx), func(s []int) int { return hashSeq(s) }, ctx...)
 		case 9:
 			ff := seq.FoldFuture(fp.Seq[int](idx), seq.Empty[int](), func(acc fp.Seq[int], i int) fp.Future[fp.Seq[int]] {
